@@ -585,6 +585,20 @@ def _tasks(check: Check):
           if f.startswith('models.') and '.create_' in f:
             md_name = f.split('.')[1]
             md_kw = {k: txt(v) for k, v in bound_args(ff, c).items()}
+    # the evaluation split is preprocessed deterministically: whatever is handed to test.preprocess_batch(...) must not switch the
+    # training-time distortion (random crop / flip) on
+    for st in body:
+      for c in ast.walk(st):
+        if isinstance(c, ast.Call) and isinstance(c.func, ast.Attribute) and c.func.attr in ('preprocess_batch', 'preprocess_client') and isinstance(
+            c.func.value, ast.Name) and c.func.value.id in ('test', 'test_fd', 'test_data', 'eval', 'held_out') and c.args:
+          for v in ff.expand(c.args[0]):
+            if isinstance(v, ast.Call) and (ff.ext(v.func) or '') == 'functools.partial':
+              flags = {k.arg: k.value for k in v.keywords}
+              for nm in ('distort', 'is_train', 'augment', 'training'):
+                if nm in flags and isinstance(flags[nm], ast.Constant) and flags[nm].value is True:
+                  check.ob('R-TASK.eval-split', fi, txt(c)[:70], False,
+                           f'the test split is preprocessed with {nm}=True: evaluation then sees random crops / flips instead of the '
+                           'standardised centre crop, and differs from pass to pass', node=c, exact=True)
     if ds_name is None or md_name is None:
       continue
     n += 1
@@ -673,6 +687,35 @@ def _row_independence(check: Check):
           check.ob('R-ROW', fi, txt(c)[:70], ok,
                    'a reduction in train_loss must keep the batch axis (axis=-1): otherwise an example\'s loss depends on the '
                    'other rows', node=c)
+      # the number of rows of the batch is not an ingredient of a row's loss: len(<batch array>) / <batch array>.shape[0] must not appear
+      # (dividing the summed token loss by len(targets) divides by the batch size, not by the sequence length)
+      batch_names = {p_ for p_ in fi.params} | {d.name for ds in ff.rd.defs_at.values() for d in ds if d.value is not None and any(
+          isinstance(y, ast.Subscript) and ff.param_of(y.value) in fi.params for y in ff.expand(d.value))}
+      for _, c in ff.calls():
+        if ff.ext(c.func) == 'builtins.len' and c.args and isinstance(c.args[0], ast.Name) and c.args[0].id in batch_names:
+          check.ob('R-ROW.batch-size', fi, txt(c), False,
+                   f'`{txt(c)}` is the number of rows in the batch: a per-example loss that uses it changes with the batch composition',
+                   node=c, exact=True)
+      for nd in ff.cfg.nodes:
+        if nd.ast is None:
+          continue
+        for x in nd.walk():
+          if isinstance(x, ast.Subscript) and isinstance(x.value, ast.Attribute) and x.value.attr == 'shape' and isinstance(
+              x.value.value, ast.Name) and x.value.value.id in batch_names and txt(x.slice) == '0':
+            check.ob('R-ROW.batch-size', fi, txt(x), False, f'`{txt(x)}` is the batch size: a per-example loss must not depend on it',
+                     node=x, exact=True)
+      # every value train_loss returns is the *masked* loss: a return that sums the unmasked per-token loss counts padding tokens
+      masks = [x for nd in ff.cfg.nodes if nd.ast is not None for x in nd.walk() if isinstance(x, ast.Compare) and len(x.ops) == 1 and isinstance(
+          x.ops[0], ast.NotEq) and any(isinstance(y, ast.Name) and y.id == 'pad' for y in ast.walk(x))]
+      if masks:
+        for _, rv in ff.returns():
+          if rv is None:
+            continue
+          reaches = any(any(y is mk for mk in masks) for y in ff.deep_walk(rv)) or any(
+              isinstance(y, ast.Name) and any(getattr(d.node, 'ast', None) is not None and any(z is mk for mk in masks for z in ast.walk(d.node.ast))
+                                              for d in ff.defs_for(y)) for y in ff.deep_walk(rv))
+          check.ob('R-ROW.masked', fi, 'return ' + txt(rv)[:60], reaches,
+                   'the returned loss is built from the padding-masked per-token loss', node=rv, exact=True)
   check.ob('R-ROW', (f'fedjax/models/*', 'train_loss'), f'{n_loss} train_loss functions, no BatchNorm', True,
            'scanned packaged models', nontrivial=False)
   check.floor('R-ROW', 'train_loss functions', n_loss, 2)
